@@ -53,8 +53,8 @@ func Open(r io.ReaderAt, size int64) (*XAR, error) {
 		heap:     io.NewSectionReader(r, base, 1<<62),
 	}
 	if toc.Signature != nil {
-		s.ClassicSignature = make([]byte, toc.Signature.Size)
-		if _, err := r.ReadAt(s.ClassicSignature, base+toc.Signature.Offset); err != nil {
+		s.ClassicSignature, err = readHeapBlob(r, size, base, toc.Signature.Offset, toc.Signature.Size)
+		if err != nil {
 			return nil, fmt.Errorf("reading signature: %w", err)
 		}
 		s.Certificates, err = parseCertificates(toc.Signature)
@@ -63,8 +63,8 @@ func Open(r io.ReaderAt, size int64) (*XAR, error) {
 		}
 	}
 	if toc.XSignature != nil {
-		s.CMSSignature = make([]byte, toc.XSignature.Size)
-		if _, err := r.ReadAt(s.CMSSignature, base+toc.XSignature.Offset); err != nil {
+		s.CMSSignature, err = readHeapBlob(r, size, base, toc.XSignature.Offset, toc.XSignature.Size)
+		if err != nil {
 			return nil, fmt.Errorf("reading CMS signature: %w", err)
 		}
 	}
@@ -77,6 +77,20 @@ func Open(r io.ReaderAt, size int64) (*XAR, error) {
 		s.NotaryTicket = ticket
 	}
 	return s, nil
+}
+
+// Read a blob that the table of contents places at the given offset into the
+// heap. Offset and length come from the archive, so they are checked against
+// its size before anything is allocated.
+func readHeapBlob(r io.ReaderAt, fileSize, base, offset, length int64) ([]byte, error) {
+	if base < 0 || offset < 0 || length < 0 || base > fileSize || offset > fileSize-base || length > fileSize-base-offset {
+		return nil, errors.New("blob lies outside the archive")
+	}
+	blob := make([]byte, length)
+	if _, err := r.ReadAt(blob, base+offset); err != nil {
+		return nil, err
+	}
+	return blob, nil
 }
 
 func parseHeader(r io.Reader) (hdr fileHeader, hashType crypto.Hash, err error) {
